@@ -636,6 +636,64 @@ func ruleDur4(c *Ctx) []*Ob {
 			}
 			construct := "call " + name + "(" + accessPath(ci.Common().Args[len(ci.Common().Args)-1]) + ")"
 			switch {
+			case root(f) == compact && f != compact && name == "removeFileOnClose":
+				// (i') the same clean-up moved into a closure of compact (`abandon := func(err error) error {...}`)
+				arg := ci.Common().Args[1]
+				own := false
+				var leafs []ssa.Value
+				for _, og := range origins(arg) {
+					leafs = append(leafs, og)
+					if ld, isLd := og.(*ssa.UnOp); isLd && ld.Op == token.MUL {
+						if fv, isFV := ld.X.(*ssa.FreeVar); isFV {
+							for _, w := range capturedCellValues(fv) {
+								leafs = append(leafs, origins(w)...)
+							}
+						}
+					}
+				}
+				for _, og := range leafs {
+					if e, isE := og.(*ssa.Extract); isE {
+						if call, isC := e.Tuple.(*ssa.Call); isC && call.Call.StaticCallee() == startFile {
+							own = true
+						}
+					}
+				}
+				pcs := paramNamed(compact, "partialCompactStart")
+				zeroDeep := func(from, to *ssa.BasicBlock, cond ssa.Value, onTrue bool) bool {
+					b, ok := cond.(*ssa.BinOp)
+					if !ok || (b.Op != token.EQL && b.Op != token.NEQ) {
+						return false
+					}
+					var x, k ssa.Value = b.X, b.Y
+					if _, isC := x.(*ssa.Const); isC {
+						x, k = k, x
+					}
+					if n, isInt := constInt(k); !isInt || n != 0 {
+						return false
+					}
+					isP := false
+					for _, og := range originsDeepIn(c, x, compact) {
+						if og == ssa.Value(pcs) {
+							isP = true
+						}
+					}
+					return isP && (b.Op == token.EQL) == onTrue
+				}
+				switch {
+				case !own:
+					o.add(fn, construct, c.instrPos(i), false, "a closure of compact schedules the removal of a file that compact did not create itself with startFileLOCKED")
+				case pcs == nil || !mustPrecede(f, i, never, zeroDeep):
+					o.add(fn, construct, c.instrPos(i), false,
+						"reachable with partialCompactStart != 0: a failed partial compaction would schedule the removal of the store's only data file (frefCompact is then the reused current file)")
+				default:
+					// the closure hands its error argument back, and compact calls it only with a non-nil error and returns what it returns
+					bad := closureOnlyOnErrorPaths(c, compact, f)
+					why := "own new file (startFileLOCKED), under partialCompactStart == 0, in a clean-up closure that compact only calls with a non-nil error and whose result it returns"
+					if bad != "" {
+						why = bad
+					}
+					o.add(fn, construct, c.instrPos(i), bad == "", why)
+				}
 			case f == compact && name == "removeFileOnClose":
 				arg := ci.Common().Args[1]
 				// (i) own new file, under partialCompactStart == 0, on an error path
@@ -885,4 +943,240 @@ func constInt64(k *ssa.Const) (int64, bool) {
 		return 0, false
 	}
 	return k.Int64(), true
+}
+
+func init() {
+	register(&Rule{
+		ID: "DUR-7",
+		Doc: "What was written is what is published: after the call persistFooter(_, X, _) no path of the same function changes the serialized state of X - no store to X.SegmentLocs, " +
+			"X.ChildFooters or X.PrevFooterOffset, and no call that hands X to a function writing those fields (spliceFooter) - so the footer in memory equals the record on disk. " +
+			"(loadSegments only fills the unexported mmap references.) A prefix spliced in after the write is missing from the file and lost at the next open.",
+		Props: []string{"C07", "C04", "C05"},
+		Floor: 2,
+		Run:   ruleDur7,
+	})
+}
+
+var serializedMemo = map[*ssa.Function]map[int]bool{}
+
+// writesSerializedParam: f stores into a serialized Footer field through its idx-th parameter (directly or through a callee).
+func writesSerializedParam(c *Ctx, f *ssa.Function, idx int, ser map[*types.Var]bool, depth int) bool {
+	if f == nil || f.Blocks == nil || idx >= len(f.Params) || depth > 4 {
+		return false
+	}
+	if m, ok := serializedMemo[f]; ok {
+		if v, ok2 := m[idx]; ok2 {
+			return v
+		}
+	} else {
+		serializedMemo[f] = map[int]bool{}
+	}
+	serializedMemo[f][idx] = false
+	p := f.Params[idx]
+	fromP := func(v ssa.Value) bool {
+		for _, og := range origins(v) {
+			if og == ssa.Value(p) {
+				return true
+			}
+		}
+		return false
+	}
+	res := false
+	for _, a := range fieldAccesses(f, func(v *types.Var) bool { return ser[v] }) {
+		if a.Kind == "load" {
+			continue
+		}
+		if fromP(a.Base) {
+			res = true
+		}
+	}
+	if !res {
+		eachInstr(f, func(i ssa.Instruction) {
+			call, ok := i.(*ssa.Call)
+			if !ok || res {
+				return
+			}
+			g := call.Call.StaticCallee()
+			if g == nil || g.Pkg != c.Moss {
+				return
+			}
+			for k, a := range call.Call.Args {
+				if fromP(a) && writesSerializedParam(c, g, k, ser, depth+1) {
+					res = true
+				}
+			}
+		})
+	}
+	serializedMemo[f][idx] = res
+	return res
+}
+
+func ruleDur7(c *Ctx) []*Ob {
+	o := newObs(c, "DUR-7")
+	pf := c.Fn("(*Store).persistFooter")
+	ser := map[*types.Var]bool{
+		c.Field("Footer", "SegmentLocs"): true, c.Field("Footer", "ChildFooters"): true, c.Field("Footer", "PrevFooterOffset"): true,
+	}
+	n := 0
+	for _, f := range c.Funcs {
+		if c.isHarness(f) {
+			continue
+		}
+		fn := c.fname(f)
+		for _, k := range callsToFn(f, pf) {
+			if len(k.Call.Args) < 3 {
+				continue
+			}
+			n++
+			X := k.Call.Args[2]
+			isX := func(v ssa.Value) bool {
+				if sameValue(v, X) {
+					return true
+				}
+				for _, a := range origins(v) {
+					for _, b := range origins(X) {
+						if a == b {
+							return true
+						}
+					}
+				}
+				return false
+			}
+			bad := ""
+			walk(after(k), walkOpts{noInline: true, visit: func(i ssa.Instruction, t *tracker) bool {
+				if bad != "" {
+					return true
+				}
+				if i == ssa.Instruction(k) {
+					return true
+				}
+				if st, ok := i.(*ssa.Store); ok {
+					if fv, base := asFieldAddr(st.Addr); fv != nil && ser[fv] && base != nil && isX(base) {
+						bad = "store to " + fv.Name() + " at " + c.instrPos(i)
+					}
+				}
+				if call, ok := i.(*ssa.Call); ok {
+					if _, isRel := isReleaseCall(call); isRel {
+						return false // giving the footer up (error path) is not a change of what is published
+					}
+					if g := call.Call.StaticCallee(); g != nil && g.Pkg == c.Moss {
+						for idx, a := range call.Call.Args {
+							if isX(a) && writesSerializedParam(c, g, idx, ser, 0) {
+								bad = "call " + g.Name() + " at " + c.instrPos(i)
+							}
+						}
+					}
+				}
+				return bad != ""
+			}})
+			why := "after the footer was written its serialized fields are not changed in this function"
+			if bad != "" {
+				why = "the footer handed to persistFooter is changed afterwards (" + bad + "): the record on disk lacks what the footer in memory has - after the next open the difference (a retained prefix of segments, a child, the history link) is gone"
+			}
+			o.add(fn, "footer unchanged after persistFooter", c.instrPos(k), bad == "", why)
+		}
+	}
+	if n == 0 {
+		o.add("-", "calls of persistFooter", "-", false, "anchor lost: nothing calls persistFooter")
+	}
+	return o.list
+}
+
+// closureOnlyOnErrorPaths: g is a clean-up closure of parent taking an error; it returns that error on every path,
+// every call of it in parent passes an error value that is non-nil there, and no success return follows the call.
+func closureOnlyOnErrorPaths(c *Ctx, parent, g *ssa.Function) string {
+	var errParam *ssa.Parameter
+	for _, p := range g.Params {
+		if isErrorType(p.Type()) {
+			errParam = p
+		}
+	}
+	if errParam == nil {
+		return "the clean-up closure takes no error: it cannot be tied to an error path of compact"
+	}
+	res := g.Signature.Results()
+	if res.Len() == 0 || !isErrorType(res.At(res.Len()-1).Type()) {
+		return "the clean-up closure does not return the error it was given"
+	}
+	bad := ""
+	eachInstr(g, func(i ssa.Instruction) {
+		if r, ok := i.(*ssa.Return); ok {
+			for _, og := range origins(r.Results[len(r.Results)-1]) {
+				if og != ssa.Value(errParam) {
+					bad = "the clean-up closure can return something other than the error it was given (" + c.instrPos(i) + ")"
+				}
+			}
+		}
+	})
+	if bad != "" {
+		return bad
+	}
+	ncalls := 0
+	eachInstr(parent, func(i ssa.Instruction) {
+		call, ok := i.(*ssa.Call)
+		if !ok || bad != "" {
+			return
+		}
+		isG := false
+		for _, og := range origins(call.Call.Value) {
+			if mc, isMC := og.(*ssa.MakeClosure); isMC && mc.Fn == ssa.Value(g) {
+				isG = true
+			}
+		}
+		if !isG {
+			return
+		}
+		ncalls++
+		idx := -1
+		for k, p := range g.Params {
+			if p == errParam {
+				idx = k
+			}
+		}
+		if idx < 0 || idx >= len(call.Call.Args) {
+			bad = "call of the clean-up closure without its error argument at " + c.instrPos(i)
+			return
+		}
+		arg := call.Call.Args[idx]
+		// behind the non-nil edge of a test of arg
+		guarded := false
+		for _, b := range parent.Blocks {
+			iff, isIf := b.Instrs[len(b.Instrs)-1].(*ssa.If)
+			if !isIf {
+				continue
+			}
+			bo, isB := iff.Cond.(*ssa.BinOp)
+			if !isB || (bo.Op != token.NEQ && bo.Op != token.EQL) {
+				continue
+			}
+			x, y := bo.X, bo.Y
+			if isNilConst(x) {
+				x, y = y, x
+			}
+			if !isNilConst(y) || !sameValue(x, arg) {
+				continue
+			}
+			succ := b.Succs[0]
+			if bo.Op == token.EQL {
+				succ = b.Succs[1]
+			}
+			if len(succ.Preds) == 1 && succ.Dominates(call.Block()) {
+				guarded = true
+			}
+		}
+		if !guarded {
+			bad = "the clean-up closure is called at " + c.instrPos(i) + " with an error that is not known to be non-nil there: the new compaction file could be scheduled for removal on a successful round"
+			return
+		}
+		if r, reach := reachableFrom(call, func(j ssa.Instruction) bool {
+			rt, isR := j.(*ssa.Return)
+			return isR && returnsNil(rt.Results[len(rt.Results)-1])
+		}, nil, nil); reach {
+			bad = "a success return (" + c.instrPos(r) + ") is reachable after the clean-up closure scheduled the removal of the new compaction file"
+		}
+	})
+	if bad == "" && ncalls == 0 {
+		return "" // never called: nothing is removed
+	}
+	return bad
 }
